@@ -65,9 +65,14 @@ def gen_wf_mrs(rng, max_nouns=2, shuffle_vars=False, shuffle_rels=False):
             ql = vg.new("h")
             hole = vg.new("h")
             body = vg.new("h")
-            rels.append({"pred": rng.choice(QUANTS), "label": ql,
-                         "args": [["ARG0", x], ["RSTR", hole], ["BODY", body]]})
-            hcons.append([hole, "qeq", lbl])
+            if rng.random() < 0.1:
+                # the restriction is the noun's label itself (no handle constraint)
+                rels.append({"pred": rng.choice(QUANTS), "label": ql,
+                             "args": [["ARG0", x], ["RSTR", lbl], ["BODY", body]]})
+            else:
+                rels.append({"pred": rng.choice(QUANTS), "label": ql,
+                             "args": [["ARG0", x], ["RSTR", hole], ["BODY", body]]})
+                hcons.append([hole, "qeq", lbl])
             qlabels[x] = ql
             # degree modifier of the quantifier ("nearly every"): shares its label, ARG1 unbound
             if rng.random() < 0.15:
@@ -127,12 +132,17 @@ def gen_wf_mrs(rng, max_nouns=2, shuffle_vars=False, shuffle_rels=False):
     for _ in range(rng.choice([0, 0, 1, 2])):
         e3 = vg.new("e")
         l3 = vg.new("h")
+        # a regular argument after the scopal one ("seem to x"): an expressed noun or an unexpressed one
+        extra = []
+        if rng.random() < 0.25:
+            extra = [["ARG2", rng.choice(nouns)[0] if nouns and rng.random() < 0.7 else vg.new("i")]]
         if rng.random() < 0.6:
             hole = vg.new("h")
-            rels.append({"pred": rng.choice(SCOPAL), "label": l3, "args": [["ARG0", e3], ["ARG1", hole]]})
+            rels.append({"pred": rng.choice(SCOPAL), "label": l3, "args": [["ARG0", e3], ["ARG1", hole]] + extra})
             hcons.append([hole, "qeq", cur_lbl])
         else:
-            rels.append({"pred": rng.choice(SCOPAL), "label": l3, "args": [["ARG0", e3], ["ARG1", cur_lbl]]})
+            rels.append({"pred": rng.choice(SCOPAL), "label": l3,
+                         "args": [["ARG0", e3], ["ARG1", cur_lbl]] + extra})
         vars_[e3] = [["TENSE", "untensed"]] if rng.random() < 0.5 else []
         cur_lbl, cur_e = l3, e3
     hcons.insert(rng.randrange(0, len(hcons) + 1), [top, "qeq", cur_lbl])
